@@ -78,6 +78,38 @@ def cmd_verify(name, baseline=False):
     print(name, "verified" if ok else "NOT verified", json.dumps({k: v for k, v in res.items() if k != "demo_patched_tail"}))
 
 
+def cmd_detect_wt(name, checks):
+    """like detect, but on a scratch worktree of /repo HEAD (VVERIF_REPO), so /repo itself stays untouched and other checks
+    can run meanwhile; the worktree is removed afterwards"""
+    d = os.path.join(ROOT, "seeded", name)
+    m = load_meta(name)
+    checks = checks or [m["property"]]
+    wt = tempfile.mkdtemp(prefix="seeddet_", dir="/tmp")
+    os.rmdir(wt)
+    r = sh(f"git -C /repo worktree add -q --detach {wt} HEAD")
+    assert r.returncode == 0, r.stderr
+    out = {}
+    try:
+        ap = sh(f"git -C {wt} apply {os.path.join(d, 'patch.diff')}")
+        if ap.returncode != 0:
+            out["apply_error"] = ap.stderr[-300:]
+            print(name, "patch does not apply to current HEAD:", ap.stderr[-200:])
+        else:
+            for c in checks:
+                r = sh(f"cd {ROOT} && VVERIF_REPO={wt} VVERIF_NPROC=8 ./check.sh {c} quick", timeout=7200)
+                vio = [l for l in r.stdout.splitlines() if l.startswith("VIOLATION")]
+                out[c] = {"exit": r.returncode, "violations": vio[:6], "n_violations": len(vio), "summary": r.stdout.strip().splitlines()[-1] if r.stdout.strip() else ""}
+                print(name, c, "exit", r.returncode, len(vio), "VIOLATION lines", flush=True)
+                for v in vio[:2]:
+                    print("   ", v[:200], flush=True)
+    finally:
+        sh(f"git -C /repo worktree remove --force {wt}")
+    m["detected_by"] = dict(m.get("detected_by") or {}, **out)
+    m["detected"] = any(isinstance(v, dict) and v.get("exit") == 1 for v in m["detected_by"].values())
+    m["detect_repo_head"] = sh("git -C /repo rev-parse --short HEAD").stdout.strip()
+    save_meta(name, m)
+
+
 def cmd_detect(name, checks):
     d = os.path.join(ROOT, "seeded", name)
     m = load_meta(name)
@@ -108,5 +140,7 @@ if __name__ == "__main__":
         cmd_import(a[1], a[2], a[3])
     elif a[0] == "verify":
         cmd_verify(a[1], "--baseline" in a)
+    elif a[0] == "detect-wt":
+        cmd_detect_wt(a[1], [x for x in a[2:] if not x.startswith("--")])
     elif a[0] == "detect":
         cmd_detect(a[1], [x for x in a[2:] if not x.startswith("--")])
